@@ -9,7 +9,9 @@ overflow, expect/unwrap on None/Err, RefCell double borrows, unreachable!, excee
  * eval on sketches (every operator / quantifier / counting kind / 64-bit constant / fixed point that converges), in
    both overflow profiles (dev: overflow checks on; release: wrapping);
  * truth-table / variable-list printing with the ParsedFormula produced by the real constructor, including orderings
-   that list names the formula does not use (non-contiguous ids)."""
+   that list names the formula does not use (non-contiguous ids);
+ * the whole `main` of src/bin/rsbdd.rs under combinations of -t -v -m -r -c -b -o with the formula a symbolic sketch
+   (clap, the file system, the tokenizer and the parser replaced by their contracts: see maincore.py)."""
 import sys
 from runner import *   # noqa
 import props
@@ -46,11 +48,14 @@ def main():
         jobs += printcore.jobs(quick)
     except ImportError:
         pass
+    # the whole main of the binary under combinations of output options (real MIR; see maincore.py)
+    import maincore
+    jobs += maincore.jobs_nopanic(quick)
     rep = run_property(PID, lemma, ['and', 'or', 'not', 'exists', 'all', 'aln', 'amn', 'exn'], [],
                        bounds={'token_sequences': '0..%d tokens over the full alphabet' % (6 if quick else 8), 'number_literals': '<= 24 digits', 'identifier_text': '<= 8 characters',
                                'sketches': len(shapes), 'atoms_k': 3},
                        assumptions=props.COMMON_ASSUME + ['regex engine modelled by its contract (see C08)', 'read_to_string succeeds (invalid UTF-8 is rejected there with an Err: an I/O contract)'],
-                       uncovered=['byte-level input and invalid UTF-8 (rejected by read_to_string before the crate sees it)', 'nesting depth 200 / 64 KiB scale', 'clap option parsing, file handling, gnuplot', 'the Graphviz exports -p / -d (see C14: not applicable)',
+                       uncovered=['byte-level input and invalid UTF-8 (rejected by read_to_string before the crate sees it)', 'nesting depth 200 / 64 KiB scale', 'clap option parsing itself, real file handling, gnuplot (-g)', 'the Graphviz exports -p / -d (see C14: not applicable)',
                                   'non-ASCII digits: the regex class \\d and str::parse are library code outside the model'],
                        extra_jobs=jobs)
     sys.exit(rep.finish())
